@@ -10,7 +10,7 @@ import (
 
 func init() {
 	register("C11", propMeta{
-		Explanation: "E-CONST + E-PROV + ordering rule + E-GUARD. O-1 path codec agreement: EncodePath and DecodePath use base64.RawURLEncoding and the same format byte '0'; DecodePath decodes the substring after strings.LastIndexByte(rest, '/') so that nothing before the last slash influences the result. O-2 one handler behind both endpoints: ampClientOffers hands the DecodePath result as Arg.Body to the same (*IPC).ClientOffers that clientOffers calls and writes the returned response bytes, unmodified, to the armor encoder, which it closes on every path after creating it. O-3 fronting shape: in both Exchange methods, exactly on the front != \"\" edge, the store req.Host <- req.URL.Host precedes the store req.URL.Host <- front, and neither field is written anywhere else. O-4 status and size are errors, never truncated data: the body is read only through the false edge of StatusCode != 200 (compared for equality with the constant 200); limitedRead wraps the body in LimitedReader{N: limit+1} and returns a non-nil error when limit+1 bytes arrived; the HTTP Exchange returns limitedRead(body, 100000); the AMP Exchange wraps the body in io.LimitReader(_, readLimit+1) before decoding and returns a non-nil error on the N == 0 edge. O-5 cache URL constants: domainPrefix accepts the basic algorithm's result only on err == nil and len(result) <= 63 (measured on the result, not the input), else uses the SHA-256/base32 fallback (lower-case alphabet, no padding); CacheURL appends \"s\" exactly for https, and rejects other schemes, userinfo, non-default ports and a cache query or fragment by error returns. Added after the second seeding round: O-3 requires the Host header value to be the Host of this very request's URL (req.URL.Host), not of another URL the rendezvous knows; O-2b/C14 the IPC error-mapping obligation of C14 on ampClientOffers and clientOffers (an IPC error answers 5xx on both endpoints). Stores and the LimitReader are also found in same-package helpers, with operands mapped back along the call chain. Added after the third seeding round: O-1b the endpoint paths resolved against the broker URL are relative references, so the broker URL's own path is kept. Added after the fourth seeding round: O-2 what DecodePath receives is the request path minus exactly the routing prefix the endpoint is registered under (TrimPrefix or a HasPrefix-guarded slice, not TrimLeft); O-5b the five steps of the AMP basic algorithm on one value chain, the 0-...-0 wrap tied to hyphens at indexes 2 and 3; O-5c no store through a *url.URL parameter or a URL field of a rendezvous object. Added after the fifth seeding round: O-3 with a front configured no path reaches the round trip without the Host/URL rewriting; O-2c/C14 the POST handler treats a body as legacy exactly when it starts with '{' (C14's legacy-shim obligations). Added after the sixth seeding round and the mutation audit: O-2 what DecodePath receives derives from URL.Path, not from EscapedPath/RawPath/RequestURI. O-6 the discarded-error rule on the rendezvous files.",
+		Explanation: "E-CONST + E-PROV + ordering rule + E-GUARD. O-1 path codec agreement: EncodePath and DecodePath use base64.RawURLEncoding and the same format byte '0'; DecodePath decodes the substring after strings.LastIndexByte(rest, '/') so that nothing before the last slash influences the result. O-2 one handler behind both endpoints: ampClientOffers hands the DecodePath result as Arg.Body to the same (*IPC).ClientOffers that clientOffers calls and writes the returned response bytes, unmodified, to the armor encoder, which it closes on every path after creating it. O-3 fronting shape: in both Exchange methods, exactly on the front != \"\" edge, the store req.Host <- req.URL.Host precedes the store req.URL.Host <- front, and neither field is written anywhere else. O-4 status and size are errors, never truncated data: the body is read only through the false edge of StatusCode != 200 (compared for equality with the constant 200); limitedRead wraps the body in LimitedReader{N: limit+1} and returns a non-nil error when limit+1 bytes arrived; the HTTP Exchange returns limitedRead(body, 100000); the AMP Exchange wraps the body in io.LimitReader(_, readLimit+1) before decoding and returns a non-nil error on the N == 0 edge. O-5 cache URL constants: domainPrefix accepts the basic algorithm's result only on err == nil and len(result) <= 63 (measured on the result, not the input), else uses the SHA-256/base32 fallback (lower-case alphabet, no padding); CacheURL appends \"s\" exactly for https, and rejects other schemes, userinfo, non-default ports and a cache query or fragment by error returns. Added after the second seeding round: O-3 requires the Host header value to be the Host of this very request's URL (req.URL.Host), not of another URL the rendezvous knows; O-2b/C14 the IPC error-mapping obligation of C14 on ampClientOffers and clientOffers (an IPC error answers 5xx on both endpoints). Stores and the LimitReader are also found in same-package helpers, with operands mapped back along the call chain. Added after the third seeding round: O-1b the endpoint paths resolved against the broker URL are relative references, so the broker URL's own path is kept. Added after the fourth seeding round: O-2 what DecodePath receives is the request path minus exactly the routing prefix the endpoint is registered under (TrimPrefix or a HasPrefix-guarded slice, not TrimLeft); O-5b the five steps of the AMP basic algorithm on one value chain, the 0-...-0 wrap tied to hyphens at indexes 2 and 3; O-5c no store through a *url.URL parameter or a URL field of a rendezvous object. Added after the fifth seeding round: O-3 with a front configured no path reaches the round trip without the Host/URL rewriting; O-2c/C14 the POST handler treats a body as legacy exactly when it starts with '{' (C14's legacy-shim obligations). Added after the sixth seeding round and the mutation audit: O-2 what DecodePath receives derives from URL.Path, not from EscapedPath/RawPath/RequestURI. O-6 the discarded-error rule on the rendezvous files. Added after the seventh seeding round: O-5d a store to url.URL.Path is allowed only on a URL built in place by a composite literal, or together with a store to RawPath (a parsed, resolved or copied URL keeps a stale RawPath and loses the escapes of the configured broker path).",
 		NotDecided:  "conformance of the basic algorithm with the AMP specification on IDN inputs, URL escaping details, byte equality of AMP and POST responses (value-level).",
 		Assumptions: []string{"net/http sends req.Host as the Host header and connects to req.URL.Host", "idna, base32, sha256 behave as documented"},
 	}, runC11)
